@@ -8,7 +8,7 @@ theorem open_attempts_bounded (s : OScn) : POBound s (oobsOf (openStandalone s))
 
 /-- A server that declines the standalone stream (405, an answer that is no event stream, a 4xx) leaves the connection
 usable, however many transport failures (within the budget) came before. -/
-theorem declined_keeps_connection (s : OScn) (h : s.fails < s.mr + 1) (hd : declined s.ans = true) :
+theorem declined_keeps_connection (s : OScn) (h : s.fails < s.mr + 1) (hd : declined s.strict s.ans = true) :
     (openStandalone s).conn = .usable ∧ (openStandalone s).stream = false := by
   have : ¬ s.fails ≥ s.mr + 1 := by omega
   rcases hs : s.ans with ⟨c, sse⟩
@@ -22,6 +22,14 @@ theorem declined_keeps_connection (s : OScn) (h : s.fails < s.mr + 1) (hd : decl
     · split
       · simp
       · simp [h3]
+
+/-- In strict mode a 4xx other than 405 under an event-stream content type fails the connection. -/
+theorem strict_4xx_fails_connection (s : OScn) (h : s.fails < s.mr + 1) (hs : s.strict = true) (c : Nat)
+    (ha : s.ans = .st c true) (h4 : 400 ≤ c ∧ c < 500) (hn : c ≠ Generated.ClientWrite.standaloneNotOffered) :
+    (openStandalone s).conn = .dead := by
+  have : ¬ s.fails ≥ s.mr + 1 := by omega
+  have h2 : ¬ (200 ≤ c ∧ c < 300) := by omega
+  simp [openStandalone, this, openAnswer, ha, hs, hn, h2]
 
 /-- When every attempt of the opening failed the connection is failed. -/
 theorem exhausted_fails_connection (s : OScn) (h : s.fails ≥ s.mr + 1) : (openStandalone s).conn = .dead := by
@@ -38,7 +46,7 @@ theorem stream_only_after_2xx_sse (s : OScn) (h : (openStandalone s).stream = tr
     · simp [h1] at h
     · cases sse
       · simp [h1] at h
-      · by_cases h3 : (decide (400 ≤ c) && decide (c < 500)) = true
+      · by_cases h3 : (decide (400 ≤ c) && decide (c < 500) && !s.strict) = true
         · simp [h1, h3] at h
         · by_cases h4 : (decide (200 ≤ c) && decide (c < 300)) = true
           · refine ⟨c, rfl, ?_, ?_, ?_⟩ <;> simp_all
@@ -63,7 +71,7 @@ theorem omonitor_accepts_model (s : OScn) : omonitor s (oobsOf (openStandalone s
 theorem sound_obound (s : OScn) (o : OObs) (h : omonitor s o = some .bound) : ¬ POBound s o := by
   unfold omonitor at h; repeat (split at h <;> try simp_all)
 theorem sound_odeclined (s : OScn) (o : OObs) (h : omonitor s o = some .declined) :
-    s.fails < s.mr + 1 ∧ declined s.ans = true ∧ o.probe = .err := by
+    s.fails < s.mr + 1 ∧ declined s.strict s.ans = true ∧ o.probe = .err := by
   have : ¬ PODeclined s o := by unfold omonitor at h; repeat (split at h <;> try simp_all)
   simpa [PODeclined, and_assoc] using this
 theorem sound_oexhausted (s : OScn) (o : OObs) (h : omonitor s o = some .exhausted) :
